@@ -121,6 +121,17 @@ theorem iterations_le_max {r : ExpResult S R V} (h : expImpl O mexp cfg v = .ok 
   | true => obtain ⟨j, _, hj, _, _, hit, _⟩ := hs.conv hc; omega
   | false => exact le_of_eq (hs.nconv hc).2.1
 
+/-- There is no early return on the start vector: with `max_krylov_dim ≥ 1` at least one
+iteration is run (and `op` evaluated), whatever `|v|` is relative to the tolerances. -/
+theorem at_least_one_iteration {r : ExpResult S R V} (h : expImpl O mexp cfg v = .ok r)
+    (hmd : 1 ≤ cfg.maxDim) : 1 ≤ r.iterationCount ∧ 1 ≤ r.ghost.opCalls := by
+  have hs := impl_spec O mexp cfg v h
+  have h1 : 1 ≤ r.iterationCount := by
+    cases hc : r.converged with
+    | true => obtain ⟨j, _, _, _, _, hit, _⟩ := hs.conv hc; omega
+    | false => rw [(hs.nconv hc).2.1]; exact hmd
+  exact ⟨h1, by rw [hs.ops]; exact h1⟩
+
 /-- `op` is evaluated exactly `iteration_count` times (ghost counter at the call site of `op`). -/
 theorem op_applied_iteration_count_times {r : ExpResult S R V} (h : expImpl O mexp cfg v = .ok r) :
     r.ghost.opCalls = r.iterationCount :=
